@@ -55,6 +55,8 @@ type opJ struct {
 	// reconnect, crash: optional fields the reconciliation answers lack (bits: 1 executor_id,
 	// 2 agent_id, 4 source) - master-generated statuses need not carry them
 	Omit int `json:"omit,omitempty"`
+	// killids: CleanupTasks RPC with an explicit list of task indices (>= 9000: an id nobody knows)
+	Ts []int `json:"ts,omitempty"`
 }
 
 type inputJ struct {
@@ -638,6 +640,19 @@ func (r *runner) apply(i int, op opJ) error {
 		}
 	case "cleanup":
 		_, _ = r.s.Rpc.CleanupTasks(bg, &pb.CleanupTasksRequest{})
+	case "killids":
+		// KillTasks with a list: ids of live, dead, locked, already removed tasks and ids nobody knows
+		var ids []string
+		for _, t := range op.Ts {
+			if id := r.taskIdOf(t); id != "" {
+				ids = append(ids, id)
+			} else {
+				ids = append(ids, fmt.Sprintf("verif-stale-%d", t))
+			}
+		}
+		if len(ids) > 0 {
+			_, _ = r.s.Rpc.CleanupTasks(bg, &pb.CleanupTasksRequest{TaskIds: ids})
+		}
 	case "store":
 		switch {
 		case op.V < 0:
@@ -882,6 +897,11 @@ func opTerm(o opJ, keepEff bool) string {
 		return fmt.Sprintf("OMesosState %d %d", o.T, o.S)
 	case "cleanup":
 		return "OCleanup"
+	case "killids":
+		if len(o.Ts) == 0 {
+			return "OStart 0"
+		}
+		return "OKillIds " + intList(o.Ts)
 	case "store":
 		if o.V < 0 {
 			return "OStoreSet None"
@@ -961,6 +981,12 @@ func corpus() []inputJ {
 	crl := func(p string, k int, lost string) opJ { return opJ{Op: "crash", P: p, K: k, Lost: lost} }
 	return []inputJ{
 		c(mk(1), op("reconnect")), // C18-a regression witness: the task must survive
+		// kill requests that name stale / dead / locked ids while another environment lives must leave the
+		// roster tasks of the live environments alone - and the next reconnection spares them:
+		c(mk(2), mk(1), opJ{Op: "destroy", E: 1}, opJ{Op: "killids", Ts: []int{2}}, op("reconnect")),                      // id of a task already killed and removed
+		c(mk(1), mk(2), opJ{Op: "killids", Ts: []int{0, 9001}}, op("reconnect"), opJ{Op: "destroy", E: 0}),                // a locked id and an id nobody knows
+		c(mk(2), mk(1), opJ{Op: "destroy", E: 0, Keep: true}, opJ{Op: "killids", Ts: []int{0, 2, 9002}}, op("reconnect")), // one killable, one locked, one unknown
+		c(mk(2), opJ{Op: "die", T: 0}, opJ{Op: "killids", Ts: []int{0, 1}}, op("reconnect")),
 		// reconciliation answers that lack optional fields must leave an owned task owned - also for the
 		// Cleanup (explicit, or at the start of the next CreateEnvironment) that follows:
 		c(mk(2), opJ{Op: "reconnect", Omit: 1}, op("cleanup")),                                            // no executor_id
@@ -1099,8 +1125,23 @@ func genScript(r *gen.Rand) inputJ {
 				t = r.Intn(tasks + 1)
 			}
 			in.Ops = append(in.Ops, opJ{Op: "die", T: t})
-		case x < 57:
+		case x < 56:
 			in.Ops = append(in.Ops, op("cleanup"))
+		case x < 57 || (envs >= 2 && x >= 92 && x < 97):
+			// kill request with a list of ids: a few existing tasks (live, dead, locked, released), often a
+			// stale id; mostly followed by a reconnection
+			var ts []int
+			for j, n := 0, r.Range(1, 3); j < n; j++ {
+				if tasks > 0 && !r.Chance(1, 4) {
+					ts = append(ts, r.Intn(tasks))
+				} else {
+					ts = append(ts, 9000+r.Intn(50))
+				}
+			}
+			in.Ops = append(in.Ops, opJ{Op: "killids", Ts: ts})
+			if r.Chance(2, 3) {
+				in.Ops = append(in.Ops, op("reconnect"))
+			}
 		case x < 61:
 			t := 0
 			if tasks > 0 {
